@@ -894,13 +894,30 @@ def constructors(check, prog):
     it = Interp(prog, max_depth=1, opaque=[SC + 'scatterer.CenteredScatterer.__init__'])
     res = it.analyze(q)
     ok = False
+    as_array = False
+    ARR = ('numpy.array', 'numpy.asarray', 'numpy.asanyarray',
+           'holopy.core.utils.ensure_array')
     for o in res.raises:
         for t, pol in o.cond:
             if pol and t[0] == 'call' and t[1] == 'numpy.any' and t[2] and \
                     t[2][0][0] == 'cmp' and t[2][0][1] == '<' and t[2][0][3] == num(0):
                 ok = 'InvalidScatterer' in show(o.value)
+                lhs = t[2][0][2]
+                as_array = lhs[0] == 'call' and lhs[1] in ARR
     check.require(ok, 'K5-rejections', 'Sphere.__init__ radius',
                   'any negative radius raises InvalidScatterer', prog.loc(q, prog.func(q)))
+    # ... whatever container the radii come in: the comparison is wrapped in a
+    # `try / except TypeError` meant for priors, and a plain list compared with 0
+    # raises that TypeError too -- a model's parameter map hands the radii of a
+    # layered sphere over as a list
+    check.require(ok and as_array, 'K5-rejections', 'Sphere.__init__ radius container',
+                  'the radii are converted to an array before they are compared with 0',
+                  prog.loc(q, prog.func(q)),
+                  fail_detail='`r < 0` is applied to the radius as given: for a list '
+                  'or tuple the comparison raises TypeError, which the handler for '
+                  'priors swallows -- Sphere(n=[1.59, 1.42], r=[0.5, -0.2]) is accepted, '
+                  'and a model of a coated sphere gives a finite log-prior (and computes '
+                  'a hologram) for a negative shell radius')
     q = SC + 'scatterer.CenteredScatterer.__init__'
     it = Interp(prog, max_depth=1)
     res = it.analyze(q)
@@ -1095,6 +1112,24 @@ def bounds_search(check, prog):
     check.require(len(rows) == 6 and not bad, 'K6-bounds-search', 'find_bounds',
                   'six searches, each from a fresh point on its own axis '
                   '(%d found)' % len(rows), loc, fail_detail='; '.join(bad[:3]))
+    # ... and each axis has a row of its own to store its two extents in: a table
+    # made by replicating one row (`[[lo, hi]] * 3`) is three names for one list,
+    # and every axis ends up with the extent found last
+    # (decided on the syntax tree: the evaluator folds `[row] * 3` into a display
+    # of three equal rows, which is exactly what it is not)
+    import ast as _ast
+    MUT = (_ast.List, _ast.Dict, _ast.Set, _ast.ListComp, _ast.DictComp, _ast.SetComp)
+    replicated = [n for n in _ast.walk(fd) if isinstance(n, _ast.BinOp) and
+                  isinstance(n.op, _ast.Mult) and any(
+                      isinstance(side, _ast.List) and
+                      any(isinstance(e, MUT) for e in side.elts)
+                      for side in (n.left, n.right))]
+    check.require(not replicated, 'K6-bounds-rows-distinct', 'find_bounds table',
+                  'the 3 x 2 table of extents has three separate rows', loc,
+                  fail_detail='%s repeats one row object: the box of an ellipsoid '
+                  'with semi-axes (3, 2, 1) gets the z extent on every axis (6870 of '
+                  '10528 interior points outside, voxel volume 8.7 for 25.1)' % (
+                      _ast.unparse(replicated[0])[:60] if replicated else ''))
 
 
 def domain_count(check, prog):
